@@ -338,7 +338,7 @@ func (g *gen) setup() []*absEvent {
 func generate(r *hx.Rand, cfg genCfg) []*item {
 	n := newNode()
 	defer n.close()
-	run := &runner{n: n}
+	run := &runner{n: n, light: true}
 	g := &gen{r: r, cfg: cfg, n: n, run: run}
 	var items []*item
 	push := func(it *item) {
